@@ -1,6 +1,7 @@
 (** C19 — what a valid Equihash solution is, stated without reference to the verifier:
     numbers and lists only (no accumulator loops, no expanded byte rows, no recursion on trees). *)
 From V.Lib Require Import Base Hex.
+From V.C19 Require Import Compact.
 Local Open Scope N_scope.
 
 Definition nlen {A} (l : list A) : N := N.of_nat (length l).
@@ -78,3 +79,16 @@ Definition validb (soln : bytes) : bool :=
           (seq 1 kk) &&
   (xorl xs =? 0).
 End Spec.
+
+(** ** Block header layout (zcash_primitives::block::BlockHeader)
+    version 4 ‖ prev 32 ‖ merkle 32 ‖ sapling root 32 ‖ time 4 ‖ bits 4 ‖ nonce 32 ‖ CompactSize len ‖ solution.
+    The Equihash input is the first 108 bytes, the nonce the next 32, the solution the [len] bytes
+    after the length prefix — exact slices of the bytes on the wire, however they were delivered. *)
+Definition hdr_fields (raw : bytes) : option (bytes * bytes * bytes) :=
+  if (length raw <? 140)%nat then None
+  else match read_compact (skipn 140 raw) with
+       | None => None
+       | Some (l, rest) =>
+           if (length rest <? N.to_nat l)%nat then None
+           else Some (firstn 108 raw, firstn 32 (skipn 108 raw), firstn (N.to_nat l) rest)
+       end.
